@@ -181,7 +181,7 @@ pub fn run_c04(a: &Args) {
         let mut steps: Vec<Step> = legal[..at].to_vec();
         let max = sc.max_len;
         let class: String;
-        let mut raw = |bytes: Vec<u8>| Step::Raw(bytes);
+        let raw = |bytes: Vec<u8>| Step::Raw(bytes);
         match n % 16 {
             0 => { class = "outer-len-neg".into(); steps.push(Step::BadLen(*rng.pick(&[-1, i32::MIN, -128]))); steps.push(raw(p.clone())); }
             1 => { class = "outer-len-zero".into(); steps.push(Step::BadLen(0)); steps.push(raw(p.clone())); }
